@@ -14,6 +14,11 @@ FLAVOUR = {
    B. an ARGUMENT-TYPE or API-VARIANT slip: the public API accepts several forms (str / bytes / bytearray / memoryview, str / os.PathLike, list / tuple / generator / mapping, keyword / positional, subclass instances, None vs missing vs empty, int vs numeric string, already-encoded vs text) and one legal form is now handled wrongly while the common form keeps working.
    C. a PERFORMANCE-motivated rewrite: caching (functools.lru_cache, a dict, precomputed attributes), a fast path / early exit, a precompiled or 'simplified' regular expression, replacing a loop by slicing/join/str methods, avoiding a copy - correct for common inputs, wrong for some specific legal ones.
  Ordinary everyday use must keep working - do NOT make a change that the first simple request would expose.""",
+ 9: """This round: make one change of each of these three kinds:
+   A. NEAR-EQUIVALENT SWAP: replace a standard-library (or built-in) call by a close relative that behaves the same on ordinary input and differently on some legal input the property covers - urlsplit/urlparse, quote/quote_plus/unquote_to_bytes, parse_qsl options, parsedate_to_datetime/parsedate/mktime_tz, formatdate flags, isdigit/isdecimal/isnumeric, int()/float()/Decimal, str.split/partition/rsplit, re.match/fullmatch/search, sorted/ list.sort keys, bytes.find/index, os.path.normpath/abspath/realpath, mimetypes.guess_type variants, json dumps/loads options, http.cookies helpers, base64/hashlib variants.
+   B. ORDERING / TIME-OF-CHECK slip: two steps are swapped or a check moved - state updated after instead of before an await / a send / a yield (or the reverse), a length or header computed before the data it describes is final, a file stat taken at a different moment than the open, validation after use, cleanup before the last use, an early return that skips a later bookkeeping step.
+   C. TWIN-PATH DIVERGENCE: the library has paired code paths (WSGI/ASGI, sync/async helper, Files/Pages, str/bytes branch, GET/HEAD, single range/multi range, first call/cached call). Apply a reasonable-looking change to ONE of the twins only, so that the two now disagree for some legal input.
+ Ordinary everyday use must keep working - do NOT make a change that the first simple request would expose.""",
  8: """This round: make one change of each of these three kinds:
    A. ENVIRONMENT-dependent: the change is correct in a default environment and breaks the property only under a particular process / OS environment - time zone or DST, locale, current working directory, umask or file permissions, symlinks / special files / unusual directory entries, file-system timestamps or sizes, environment variables, PYTHONHASHSEED, recursion limit, the size or busyness of a thread pool, the event-loop implementation or debug mode, warnings turned into errors (-W error), `python -O` (asserts stripped) or `-X dev`.
    B. LONG-LIVED-PROCESS: nothing is wrong for the first request(s); the violation appears only after many requests / objects / a lot of data / some time - a counter that wraps or exceeds a threshold, a cache or registry that fills up or goes stale, state that accumulates on a module, class or long-lived object, a clock that moves (also backwards), an id that gets reused, resources that are released late.
